@@ -7,7 +7,9 @@ import Haiway.Model.MiniPy
       the caller **as that object** and nothing is started anywhere (label `spawnfail`); whatever the callable itself raises
       reaches the caller as that object and nothing is started;
     * without one (`LookupError` from the context variable – and only then) the task is created on the event loop, detached
-      (`C06.no_scope_detached`). -/
+      (`C06.no_scope_detached`);
+    * either way the new task gets a **fresh snapshot** of the spawner's context (`copy_context()` called once, at the spawn, and
+      handed over as `context=`): what C03's model takes task creation to be. -/
 namespace Haiway.Bridge.Spawn
 open Haiway.MiniPy
 
@@ -18,6 +20,8 @@ structure W where
   calls : Nat := 0                  -- times the callable was called
   inGroup : List (Val × Val) := []  -- (group, coroutine) of tasks created through a group
   onLoop : List Val := []           -- coroutines of tasks created on the event loop
+  copies : Nat := 0                 -- `copy_context()` calls so far
+  ctxArgs : List Val := []          -- the `context=` argument of every task created
 
 abbrev theLoop : Val := .obj 1
 
@@ -29,13 +33,13 @@ def ext : World W := fun f args w fl =>
   | 102, [] => (match w.var with
       | some v => some (.inl v, w)
       | none => some (.inr (.exc cLookupError 0), w))
-  | 160, [recv, coro, _] =>
-      if recv.same theLoop then some (.inl (.obj 51), { w with onLoop := w.onLoop ++ [coro] })
+  | 160, [recv, coro, c] =>
+      if recv.same theLoop then some (.inl (.obj 51), { w with onLoop := w.onLoop ++ [coro], ctxArgs := w.ctxArgs ++ [c] })
       else if w.groupRefuses then some (.inr (.exc cRuntimeError 77), w)
-      else some (.inl (.obj 50), { w with inGroup := w.inGroup ++ [(recv, coro)] })
+      else some (.inl (.obj 50), { w with inGroup := w.inGroup ++ [(recv, coro)], ctxArgs := w.ctxArgs ++ [c] })
   | 161, _ => some (w.callOut, { w with calls := w.calls + 1 })
   | 162, [] => some (.inl theLoop, w)
-  | 163, [] => some (.inl (.obj 2), w)
+  | 163, [] => some (.inl (.obj (200 + w.copies)), { w with copies := w.copies + 1 })   -- a fresh snapshot every time
   | _, _ => none
 
 /-- **`ctx.spawn`**: see the header. -/
@@ -43,6 +47,7 @@ def RunSpawns (p : Stmt) : Prop :=
   ∀ (args : Nat → Val) (w : W), w.calls = 0 → w.inGroup = [] → w.onLoop = [] →
     (∀ e, w.callOut = .inr e → ∃ c n, e = .exc c n) →
     (∀ g, w.var = some g → ∃ n, g = .obj (n + 2)) →      -- a task group is an object other than the loop
+    w.ctxArgs = [] →
     let r := runMethod ext p ({ loc := args, fld := fun _ => .none, world := w } : St W)
     match w.var with
     | some g =>
@@ -51,12 +56,15 @@ def RunSpawns (p : Stmt) : Prop :=
        | .inr e => r.1 = .exc e ∧ r.2.world.inGroup = []
        | .inl coro =>
          if w.groupRefuses then r.1 = .exc (.exc cRuntimeError 77) ∧ r.2.world.inGroup = []
-         else r.1 = .ret (.obj 50) ∧ r.2.world.inGroup = [(g, coro)])
+         else r.1 = .ret (.obj 50) ∧ r.2.world.inGroup = [(g, coro)] ∧
+              -- the task runs in a snapshot of the spawner's context taken **now** (a fresh `copy_context()` for this task)
+              r.2.world.ctxArgs = [.obj (200 + w.copies)] ∧ r.2.world.copies = w.copies + 1)
     | none =>
       r.2.world.inGroup = [] ∧ r.2.world.calls = 1 ∧
       (match w.callOut with
        | .inr e => r.1 = .exc e ∧ r.2.world.onLoop = []
-       | .inl coro => r.1 = .ret (.obj 51) ∧ r.2.world.onLoop = [coro])
+       | .inl coro => r.1 = .ret (.obj 51) ∧ r.2.world.onLoop = [coro] ∧
+                      r.2.world.ctxArgs = [.obj (200 + w.copies)] ∧ r.2.world.copies = w.copies + 1)
 
 macro "spawn_eval" : tactic => `(tactic|
   (simp (config := { decide := true }) [runMethod, exec, exec.execH, eval, builtin, ext, upd, Val.same, Val.truthy,
